@@ -32,11 +32,13 @@ Clauses(r, d, o) ==
      \cup F(ok => (o[28] = 1 /\ o[29] = r.end), "C11", "skipvaluefast_same_array_refilled_same_buffer")
      \cup F(o[30] = 0, "C10", "panic")
      \* the same bytes in other layouts of the caller's slice: capacity = length, and spare capacity holding bytes that
-     \* would continue or close the document (what lies beyond len(data) is not input); one tuple per distinct result
+     \* would continue or close the document (what lies beyond len(data) is not input), and the same array refilled with
+     \* this document after a same-length document went through the same Buffer in a *different* function;
+     \* one tuple per distinct result
      \cup UNION { LET b == 34 + 5 * (k - 1) IN
-                    F(o[b] = v, "C01", "valid_depends_on_capacity_or_bytes_beyond_len")
-                    \cup F(o[b + 1] = okI /\ (ok => o[b + 2] = r.end), "C02", "skipvalue_depends_on_capacity_or_bytes_beyond_len")
-                    \cup F(ok => (o[b + 3] = 1 /\ o[b + 4] = r.end), "C11", "skipvaluefast_depends_on_capacity_or_bytes_beyond_len")
+                    F(o[b] = v, "C01", "valid_depends_on_slice_layout_or_on_what_another_function_left_in_the_buffer")
+                    \cup F(o[b + 1] = okI /\ (ok => o[b + 2] = r.end), "C02", "skipvalue_depends_on_slice_layout_or_on_what_another_function_left_in_the_buffer")
+                    \cup F(ok => (o[b + 3] = 1 /\ o[b + 4] = r.end), "C11", "skipvaluefast_depends_on_slice_layout_or_on_what_another_function_left_in_the_buffer")
                     \cup F((o[b + 1] = 1 => (o[b + 2] >= 0 /\ o[b + 2] <= n)) /\ (o[b + 3] = 1 => (o[b + 4] >= 0 /\ o[b + 4] <= n)),
                            "C10", "offset_out_of_range")
                   : k \in 1..((Len(o) - 33) \div 5) }
